@@ -238,7 +238,9 @@ def run(ctx):
     first_val = min((l for l, f in calls if f == "validate_combine_input"), default=None)
     sink_calls = [l for l, f in calls if f in ("pck1.make_dir_tree", "pck1.write_global_header_new_fields",
                                                "rewrite_level_header", "pool.map", "pool.imap")]
-    ok = first_val is not None and sink_calls and first_val < min(sink_calls) and isinstance(c.node.body[1 if ast.get_docstring(c.node) else 0], ast.Assign)
+    eff = rules.effective(c.node.body)
+    ok = first_val is not None and sink_calls and first_val < min(sink_calls) and eff and isinstance(eff[0], ast.Assign) \
+        and "validate_combine_input" in norm(eff[0].value)
     ctx.check(ok, f"{P}.DOMINANCE", c.site, "validate_combine_input is the first statement: it dominates every write",
               "a write (directory tree, header, pool) can happen before validate_combine_input has accepted the pair",
               where=loc(c, c.node))
